@@ -6,7 +6,8 @@ CONSTANTS
   KindSets = {}
   Inits = {}
   MaxLen = 0
-  MaxChanges = 1
+  MaxChanges = 2
+  MaxUser = 1
   AfterChange = "rereg_only"
   ReEnable = TRUE
   Variants = {"fix_track_registered"}
